@@ -3,6 +3,7 @@ the same under every buffering strategy" (partial claim)."""
 from __future__ import annotations
 
 import ast
+import re
 
 from ..dtable import table as dtable, Unsupported, evaluate
 from ..loader import norm, own_nodes, AnalysisError
@@ -52,6 +53,11 @@ def run(ctx):
     r53(ctx, rep)
     r54(ctx, rep, sv)
     r55(ctx, rep)
+    # a look-ahead row must not be tested by truthiness (shared with C12 R12.7, restricted to sorts.py)
+    from .c12 import r127
+    rep.rule('R5.7', 'no row of the source is tested for truth in sorts.py (an empty row is falsy)')
+    if r127(ctx, rep, 'R5.7', ('petl.transform.sorts',)) == 0:
+        rep.held('R5.7', ('petl.transform.sorts', '*'), 'no truth test of a row', '', None)
     # R5.6: Comparable provenance inside sorts.py -- the C04 R4.3 obligations restricted to that module
     from . import c04
     from ..report import Report
@@ -299,6 +305,27 @@ def r53(ctx, rep):
     else:
         rep.violated('R5.3', sl, 'shortlist.index(nxt)', 'the run of the selected row is not located by index(): ties are no longer '
                      'broken in run order', sl.node)
+    # an exhausted run is removed without disturbing the order of the remaining runs
+    handlers = [h for t in own_nodes(sl.node) if isinstance(t, ast.Try) for h in t.handlers
+                if h.type is not None and norm(h.type) == 'StopIteration']
+    in_loop = [h for h in handlers if any(isinstance(x, (ast.Delete, ast.Call, ast.Assign)) for b in h.body for x in ast.walk(b))]
+    checked = False
+    for h in in_loop:
+        texts = [norm(b) for b in h.body]
+        if texts == ['pass']:
+            continue
+        checked = True
+        ok = all(re.match(r'^(del (shortlist|iterators)\[nextidx\]|(shortlist|iterators)\.pop\(nextidx\))$', t) for t in texts) \
+            and any('shortlist' in t for t in texts) and any('iterators' in t for t in texts)
+        if ok:
+            rep.held('R5.3', sl, 'remove exhausted run', ' ; '.join(texts), h)
+        else:
+            rep.violated('R5.3', sl, 'remove exhausted run: ' + ' ; '.join(texts)[:80],
+                         'an exhausted run must be removed by deleting its slot from both lists (order-preserving): any other '
+                         'bookkeeping (e.g. moving the last run into the slot) changes the position of the remaining runs, '
+                         'and ties are broken by position', h)
+    if not checked:
+        rep.undecided('R5.3', sl, 'remove exhausted run', 'removal of exhausted runs not recognised', sl.node)
     hq = ctx.project.need_fn('petl.transform.sorts:_heapqmergesorted')
     keyed = [n for n in ast.walk(hq.node) if isinstance(n, ast.Call) and norm(n.func) == '_Keyed']
     if keyed and [norm(a) for a in keyed[0].args] == ['key(obj)', 'obj']:
